@@ -191,6 +191,19 @@ class C30(SchedProp):
             d['obs_db'] = True
         return d
 
+    _DS_CRASH = "object has no attribute 'graph_depth'"
+
+    def driver_obs(self, inp, raw):
+        # the recorded crash of the real scheduler inside the (unmodelled) data store: finding `datastore-crash`
+        if 'error' in raw and self._DS_CRASH in raw['error']:
+            return {'crash': 'datastore-crash'}
+        return super().driver_obs(inp, raw)
+
+    def equal(self, model_out, obs):
+        if isinstance(obs, dict) and obs.get('crash') == 'datastore-crash':
+            return model_out == obs          # no correspondence claim for that run (reported as a known finding)
+        return super().equal(model_out, obs)
+
     def skip_case(self, inp, raw):
         if 'error' in raw and 'BrokenBarrierError' in raw['error']:
             raise Infra('scheduler server thread did not start within its time-out (overloaded machine?) '
